@@ -33,6 +33,8 @@ CLAIMED = {
                 design='DESIGN.md 4/C05'),
     'C07': dict(text='Bounded model checking of model and infer: false leaf iff unsatisfiable, single cube, implies f, mentions only support variables; infer (true,true) iff forced.',
                 design='DESIGN.md 4/C07'),
+    'C19': dict(text='Bounded model checking of every BDDSet operation (insert, union, intersect, complement, empty, universe, contains) as one inductive step from an arbitrary state: two sets over 2..3 bits with unknown truth tables sharing an environment, distinct or the same object, element an unconstrained usize; post-state equals the reference set operation for every element, the other set is unchanged, queries do not modify, no panic (RefCell borrow counter modelled).',
+                design='DESIGN.md 4/C19'),
     'C20': dict(text='Bounded model checking of retain_choice_bottom_up for every function of k variables and a symbolic filter: direction of implication, identity for Any, ordered/reduced, support.',
                 design='DESIGN.md 4/C20'),
 }
